@@ -341,9 +341,12 @@ def insertXpaths (res : Bool → Str → Option Str) : Nat → Str → Option St
     | _, _ => (insertXpaths res f cs).map (c :: ·)
 
 /-- `insert_xpaths(text, context, use_current, reference_parent)`; texts that need the lexer-level flags of
-    `Pyxv.Refs.Flags` (`indexed-repeat(`, `instance(` predicates) are outside the fragment -/
+    `Pyxv.Refs.Flags` (`indexed-repeat(` argument positions; `instance(` predicates where `use_current` is off,
+    i.e. in a seed) are outside the fragment -/
 def subst (root : Str) (tbl : List NameInfo) (ctx : Refs.Chain) (useCurrent refParent : Bool) (s : Str) : Option Str :=
-  if isInfix c!"indexed-repeat(" s || isInfix c!"instance(" s then none
+  -- `_in_secondary_instance_predicate` only matters when `use_current` is off: the emitted text depends on
+  -- `use_current || in_predicate` (survey.py 1185-1190)
+  if isInfix c!"indexed-repeat(" s || (!useCurrent && isInfix c!"instance(" s) then none
   else insertXpaths (resolve root tbl ctx useCurrent refParent) s.length s
 
 /-! ## 6. the itemset of a select (`MultipleChoiceQuestion.build_xml`) -/
@@ -771,15 +774,14 @@ def tagOf (sel : Str) : Str :=
   | some e => ((entryGet e "control" "tag").getD "").toList
   | none => []
 
-def inlineItems (l : Str) (cs : List Choice) (qHasLabel : Bool) : Option (List ((Bool × Str) × Str)) :=
+def inlineItems (l : Str) (cs : List Choice) (_qHasLabel : Bool) : Option (List ((Bool × Str) × Str)) :=
   let itext := requiresItext cs
   let rec go : Nat → List Choice → Option (List ((Bool × Str) × Str))
     | _, [] => some []
     | i, c :: rest =>
       let lab : Option (Bool × Str) :=
         if itext then some (true, c!"jr:itext('" ++ l ++ c!"-" ++ natToStr i ++ c!"')")
-        else if qHasLabel then (match c.label with | .plain s => some (false, s) | _ => some (false, []))
-        else some (false, [])
+        else (match c.label with | .plain s => some (false, s) | _ => some (false, []))   -- `elif option.label` (51586cd)
       match lab, go (i + 1) rest with
       | some x, some r => some ((x, c.name) :: r)
       | _, _ => none
